@@ -195,6 +195,12 @@ def c03(tier, seed):
     for m in multi:
         for fw in FRAMEWORKS:
             cases.append((m, fw, "flat", {}))
+    # deep trees where only an earlier sibling's subtree needs an import (nested layout must still import it)
+    for t_ in ([{"first": {"inner": {"xs": [1, 2], "o": None, "m": {"k": 1}}}, "second": {"n": 1}, "third": {"t": {"z": 1.5}}}],
+               [{"r": {"first": {"inner": {"xs": [1.5], "lit": "a"}}, "last": {"n": 1, "deep": {"d": 1}}}}],
+               [{"list": {"item": {"deep": {"x": [1]}}}, "user info": {"a": {"b": {"c": None, "c2": 1}}}, "warnings": {"w": {"v": {"u": 2}}}}]):
+        for fw in FRAMEWORKS:
+            cases.append((t_, fw, "nested", {}))
     # many models with the same generated name (more than one alphabet of model indexes), kept apart by the exact-match policy
     many = {"Root": [{f"g{i:02d}": {"item": {f"f{i}": i}, f"own{i}": 1} for i in range(45)}]}
     cases.append((many, "pydantic", "flat", {}))
@@ -673,7 +679,10 @@ def oracle_c12(case):
     if is_tree(reg):
         if first != roots["Root"].type.name:
             return f"flat layout lists {first} before the root model"
-        nested = render(reg, fw, "nested")
+        # the nested layout is rendered from a registry of its own: rendering renames models in place, so a registry that the flat
+        # layout has already rendered hides what the nested layout does with fresh names
+        reg_n, _gen_n, _roots_n = infer({"Root": samples}, merge=[ModelFieldsEquals()])
+        nested = render(reg_n, fw, "nested")
         nb = class_bodies(nested)
         for name, lst in nb.items():
             if len(lst) != 1:
@@ -710,6 +719,11 @@ C12_SAMPLES = [
     [{"a": {"b": {"c": {"d": 1}}}}],
     [{"alpha": {"papa": {"p": 1}, "quebec": {"q": 2}}, "bravo": {"v": 1}}],
     [{"a": {"k s": 1}, "b": 2}],
+    # three and more levels where a model *with children* gets a class name that prepare_label alters, and where only an earlier
+    # sibling's subtree needs an import
+    [{"list": {"item": {"deep": {"x": 1}}}, "user info": {"a": {"b": {"c": 1}}}, "warnings": {"w": {"v": {"u": 2}}}}],
+    [{"first": {"inner": {"xs": [1, 2], "o": None, "m": {"k": 1}}}, "second": {"n": 1}, "third": {"t": {"z": 1.5}}}],
+    [{"r": {"first": {"inner": {"xs": [1.5]}}, "last": {"n": 1, "deep": {"d": 1}}}}],
 ]
 
 
@@ -718,13 +732,13 @@ def c12(tier, seed):
     cases = [(s, fw) for s in C12_SAMPLES for fw in FRAMEWORKS]
     cases += [(s, "pydantic") for s in itertools.islice(sample_lists(tier, seed), 0, 300 if tier == "quick" else 20000)]
     r = run_cases(cases, oracle_c12, "c12")
-    r["bound"] = "7 tree-shaped inputs (depth<=4, sibling subtrees, odd key characters) x 5 frameworks + first 300/20000 sample lists of the C01 domain (flat completeness)"
+    r["bound"] = "10 tree-shaped inputs (depth<=4, sibling subtrees, odd key characters) x 5 frameworks + first 300/20000 sample lists of the C01 domain (flat completeness)"
     r["function"] = "compose_models / compose_models_flat / _generate_code / indent"
     return r
 
 
 # ------------------------------------------------------------------------------------------------ C18
-PSEUDO_VALUES = ["1", "2.5", ["1", "2"], {"k": "3"}, [["4"]], {"k": ["5"]}, [], {}, None]
+PSEUDO_VALUES = ["1", "2.5", ["1", "2"], {"k": "3"}, [["4"]], {"k": ["5"]}, [], {}, None, "0", "0.0", "-0", ["0"], {"k": "0"}]
 
 
 def conv_expected(v, t):
